@@ -17,6 +17,16 @@ def mc_params(c):
                   workers=8 if thorough(c) else 4)
 
 
+def mc_huff(c):
+    """the compressor's Huffman code construction and code-length packer (DeflateHuff.tla), exhaustive at
+    small alphabets / limits; the same rules are evaluated on the real optimize_table through the hook"""
+    c.model_check("MC_DeflateHuff", "MC_DeflateHuff_huff.cfg", workers=6)
+    c.model_check("MC_DeflateHuff", "MC_DeflateHuff_pack.cfg", workers=4)
+    r = c.model_check("MC_DeflateHuff", "MC_DeflateHuff_huff_mut.cfg", workers=4, expect_ok=False)
+    if not r["violations"]:
+        c.tool_error("MC_DeflateHuff: the seeded design mutation was not rejected (invariants lost their teeth)")
+
+
 def check_C01(c):
     mc_params(c)
     mc_lz(c, ("lazy", "greedy", "rle") if thorough(c) else ("greedy",))
@@ -38,6 +48,8 @@ def check_C09(c):
 def check_C10(c):
     mc_params(c)
     mc_lz(c, ("rle",))
+    mc_huff(c)
+    c.scenario("huff")
     c.scenario("configs_c10")
     return c.finish("model_checking",
                     "one case = one compressor configuration on data built to tempt the forbidden token kinds; acceptor token statistics are checked against what DeflateParams says the requested level/strategy requires",
@@ -60,6 +72,9 @@ RULE_DEC = ("one case = one stream (valid, mutated, truncated or random) driven 
 def gen_streams(c, valid_only):
     """TLC generates streams from the grammar spec (and checks generator/acceptor agreement)."""
     c.model_check("MC_GenAcc", "MC_GenAcc.cfg" if thorough(c) else "MC_GenAcc_quick.cfg", workers=8, timeout=2400)
+    if thorough(c):
+        # every wide ("counts") palette: generator and acceptor agree on the extreme code-length sets
+        c.model_check("MC_GenAcc", "MC_GenAcc_wide.cfg", workers=8, timeout=3600)
     n = 1200 if thorough(c) else 260
     return c.generate("MC_GenAcc", "MC_GenAcc_simvalid.cfg" if valid_only else "MC_GenAcc_sim.cfg", n, 400)
 
